@@ -46,6 +46,10 @@ pub struct WireRec {
     pub frame: Option<RFrame>,
     pub dropped: bool,
     pub injected: bool,
+    /// the operating system refused the send (injected socket error): the endpoint made the
+    /// attempt and was told that it failed; nothing was transmitted. Recorded as a dropped frame;
+    /// byte accounting (C13, C18) and resend spacing / count clauses leave these out.
+    pub refused: bool,
 }
 
 #[derive(Clone, Debug)]
@@ -163,8 +167,38 @@ pub struct ServerSide {
     pub step_times: Vec<u64>,
 }
 
+/// Send errors of the operating system's socket: every `every`-th send of the chosen side(s) fails
+/// (0 = none), and during each burst (side, from, until) every send of that side fails.
+#[derive(Clone, Debug, Default)]
+pub struct SendFaultPlan {
+    /// the socket works again from here on
+    pub until_ns: u64,
+    pub every: u64,
+    pub only_server: Option<bool>,
+    pub bursts: Vec<(Option<bool>, u64, u64)>,
+}
+
+impl SendFaultPlan {
+    pub fn random(rng: &mut Rng, horizon_ns: u64) -> Self {
+        let every = *rng.pick(&[0u64, 0, 2, 3, 7, 20, 100]);
+        let only_server = *rng.pick(&[None, None, Some(true), Some(false)]);
+        let mut bursts = Vec::new();
+        let n = if every == 0 { rng.range(1, 4) } else { rng.range(0, 2) };
+        for _ in 0..n {
+            let t0 = rng.range(0, horizon_ns.max(2));
+            let len = *rng.pick(&[1u64, 5, 20, 100, 500, 2100, 5000]) * MS;
+            bursts.push((*rng.pick(&[None, Some(true), Some(false)]), t0, (t0 + len).min(horizon_ns)));
+        }
+        Self { until_ns: horizon_ns, every, only_server, bursts }
+    }
+}
+
 pub struct World {
     pub now_ns: u64,
+    /// added to the clock uflow sees after the server was bound ("the server has been up this long")
+    pub epoch_ns: u64,
+    pub send_faults: Option<SendFaultPlan>,
+    send_fault_armed: u64,
     pub seq: u64,
     pub rng: Rng,
     pub net: NetCfg,
@@ -240,6 +274,20 @@ macro_rules! ep_call {
     }};
 }
 
+/// One session in eight runs on a server that has been up for a long time: its millisecond clock
+/// is about to pass 2^31, 2^32 or 2^40 (or just has), so anything that keeps fewer bits of a time
+/// stamp than the library's u64 shows.
+pub fn pick_epoch_ns(h: u64) -> u64 {
+    if h % 8 != 0 {
+        return 0;
+    }
+    let base_ms: u64 = [1u64 << 32, 1u64 << 32, 1u64 << 31, 1u64 << 40, (1u64 << 32) + (1u64 << 31), 3 * (1u64 << 32)][((h >> 8) % 6) as usize];
+    // the boundary falls 0..40 s into the session, or was passed up to 5 s before it began
+    let span = if (h >> 40) % 3 == 0 { 600_000 } else { 45_000 };
+    let before_ms = ((h >> 16) % span) as i64 - 5_000;
+    ((base_ms as i64 - before_ms) as u64) * MS
+}
+
 impl World {
     pub fn new(seed: u64, net: NetCfg, verbose: bool) -> Self {
         uv::time::set_virtual_ns(Some(0));
@@ -247,8 +295,12 @@ impl World {
         uv::rng::clear_forced();
         uv::net::enable();
         uv::net::set_socket_faults(0, 0);
+        let _ = uv::net::drain_refused();
         Self {
             now_ns: 0,
+            epoch_ns: pick_epoch_ns(mix(seed, 0xe90c)),
+            send_faults: None,
+            send_fault_armed: 0,
             seq: 0,
             rng: Rng::new(mix(seed, 0x3e7)),
             net,
@@ -312,10 +364,38 @@ impl World {
         let s = self.server.server.take();
         let _ = std::panic::catch_unwind(std::panic::AssertUnwindSafe(|| guarded(11, || drop(s))));
         alloc::set_tag(alloc::TAG_HARNESS);
+        if self.send_faults.is_some() {
+            uv::net::set_socket_faults(0, 0);
+        }
+        let _ = uv::net::drain_refused();
         uv::net::disable();
         uv::time::set_virtual_ns(None);
         uv::rng::set_seed(None);
         uv::rng::clear_forced();
+    }
+
+    /// Every call into an endpoint starts here: sets the clock uflow sees and, when the session has a
+    /// send-fault plan, makes the (virtual) operating system refuse this endpoint's sends.
+    fn enter(&mut self, is_server: bool) {
+        uv::time::set_virtual_ns(Some(self.now_ns + self.epoch_ns));
+        if let Some(ref plan) = self.send_faults {
+            let t = self.now_ns;
+            let burst = plan.bursts.iter().any(|b| b.1 <= t && t < b.2 && b.0.map_or(true, |s| s == is_server));
+            let want: u64 = if t >= plan.until_ns { 0 } else if burst { 1 } else if plan.only_server.map_or(true, |s| s == is_server) { plan.every } else { 0 };
+            if want != self.send_fault_armed {
+                self.send_fault_armed = want;
+                uv::net::set_socket_faults(want, 0);
+            }
+        }
+    }
+
+    /// From now on the operating system refuses sends according to `plan` (ENOBUFS, EPERM,
+    /// ECONNREFUSED on a send: the frame is not transmitted and the endpoint is told so). A refused
+    /// send is recorded in the wire trace as a dropped frame with `refused` set.
+    pub fn set_send_fault_plan(&mut self, plan: SendFaultPlan) {
+        self.c.inc("sessions_with_send_errors");
+        self.send_faults = Some(plan);
+        self.send_fault_armed = 0;
     }
 
     pub fn viol(&mut self, prop: &'static str, rule: &str, msg: String) {
@@ -338,12 +418,17 @@ impl World {
     // ---- endpoints -----------------------------------------------------------------------
 
     pub fn bind_server(&mut self, cfg: uflow::server::Config, step_dt_ns: (u64, u64)) -> bool {
+        // the server object is created *before* the epoch offset applies: a server that has been
+        // up for epoch_ns (its millisecond clock reads epoch + session time) when the session begins
         uv::time::set_virtual_ns(Some(self.now_ns));
         self.server.max_total = cfg.max_total_connections;
         self.server.max_active = cfg.max_active_connections;
         self.server.cfg = cfg.endpoint_config.clone();
         self.server.step_dt_ns = step_dt_ns;
         self.server.next_step_ns = self.now_ns;
+        if self.epoch_ns != 0 {
+            self.c.inc("servers_up_for_2^31_ms_or_more");
+        }
         let addr = self.server.addr;
         match ep_call!(self, 10, "Server::bind", uflow::server::Server::bind(addr, cfg)) {
             Some(Ok(s)) => {
@@ -355,7 +440,7 @@ impl World {
     }
 
     pub fn connect_client(&mut self, cfg: uflow::EndpointConfig, addr: SocketAddr, step_dt_ns: (u64, u64), forced_nonce: Option<u32>) -> Option<usize> {
-        uv::time::set_virtual_ns(Some(self.now_ns));
+        self.enter(false);
         uv::net::push_bind_addr(addr);
         if let Some(n) = forced_nonce {
             uv::rng::force_u32(n);
@@ -395,7 +480,7 @@ impl World {
     }
 
     pub fn drop_client(&mut self, i: usize) {
-        uv::time::set_virtual_ns(Some(self.now_ns));
+        self.enter(false);
         self.log(format!("APP drop client object {}", i));
         let cl = self.clients[i].client.take();
         if cl.is_some() {
@@ -410,11 +495,15 @@ impl World {
 
     /// Collects everything the endpoints sent since the last call and decides its fate.
     pub fn pump(&mut self) {
-        let dgrams = uv::net::drain_wire();
-        for d in dgrams {
+        let mut dgrams: Vec<(uv::net::Datagram, bool)> = uv::net::drain_wire().into_iter().map(|d| (d, false)).collect();
+        dgrams.extend(uv::net::drain_refused().into_iter().map(|d| (d, true)));
+        for (d, refused) in dgrams {
             let frame = decode(&d.data);
             let to_server = d.dst == self.server.addr;
-            if !to_server {
+            if refused {
+                self.c.inc("sends_refused_by_the_socket");
+            }
+            if !to_server && !refused {
                 // server -> address accounting (C18), also counts replies to spoofed / raw sources
                 let e = self.bytes.entry(d.dst).or_insert((0, 0));
                 if d.src == self.server.addr {
@@ -456,12 +545,12 @@ impl World {
                 }
             }
             let t = self.now_ns;
-            let mut dropped = false;
+            let mut dropped = refused;
             // targeted drops
             if let Some(ref f) = frame {
                 let name = f.type_name();
                 for r in self.net.drop_rules.iter_mut() {
-                    if r.remaining > 0 && r.frame_type == name && r.from.map_or(true, |a| a == d.src) && r.to.map_or(true, |a| a == d.dst) {
+                    if !refused && r.remaining > 0 && r.frame_type == name && r.from.map_or(true, |a| a == d.src) && r.to.map_or(true, |a| a == d.dst) {
                         r.remaining -= 1;
                         dropped = true;
                         break;
@@ -509,14 +598,14 @@ impl World {
                     None => copies.push(0),
                 }
             }
-            if dropped {
+            if dropped && !refused {
                 self.c.inc("fate_drop");
             }
             if self.verbose {
-                self.log(format!("{} -> {} {} bytes {:?}{}", d.src, d.dst, d.data.len(), frame.as_ref().map(|f| brief(f)), if dropped { "  [DROPPED]" } else { "" }));
+                self.log(format!("{} -> {} {} bytes {:?}{}", d.src, d.dst, d.data.len(), frame.as_ref().map(|f| brief(f)), if refused { "  [SEND REFUSED BY THE SOCKET]" } else if dropped { "  [DROPPED]" } else { "" }));
             }
             if self.keep_trace {
-                self.wire.push(WireRec { t_ns: t, src: d.src, dst: d.dst, len: d.data.len(), frame: frame.clone(), dropped, injected: false });
+                self.wire.push(WireRec { t_ns: t, src: d.src, dst: d.dst, len: d.data.len(), frame: frame.clone(), dropped, injected: false, refused });
             }
             for extra in copies {
                 self.seq += 1;
@@ -530,7 +619,7 @@ impl World {
         self.seq += 1;
         self.c.inc("datagrams_injected");
         if self.keep_trace {
-            self.wire.push(WireRec { t_ns: self.now_ns, src, dst, len: data.len(), frame: decode(&data), dropped: false, injected: true });
+            self.wire.push(WireRec { t_ns: self.now_ns, src, dst, len: data.len(), frame: decode(&data), dropped: false, injected: true, refused: false });
         }
         self.pending.push(Reverse(Pending { t_ns: self.now_ns + delay_ns, seq: self.seq, src, dst, data, injected: true }));
     }
@@ -606,7 +695,7 @@ impl World {
     }
 
     pub fn step_server(&mut self) {
-        uv::time::set_virtual_ns(Some(self.now_ns));
+        self.enter(true);
         self.deliver_due();
         let now = self.now_ns;
         let evs: Option<Vec<uflow::server::Event>> = {
@@ -805,7 +894,7 @@ impl World {
     }
 
     pub fn step_client(&mut self, i: usize) {
-        uv::time::set_virtual_ns(Some(self.now_ns));
+        self.enter(false);
         self.deliver_due();
         let now = self.now_ns;
         let evs: Option<Vec<uflow::client::Event>> = {
@@ -908,7 +997,7 @@ impl World {
     // ---- application actions -------------------------------------------------------------
 
     pub fn client_send(&mut self, i: usize, len: usize, chan: usize, mode: u8) -> Option<u64> {
-        uv::time::set_virtual_ns(Some(self.now_ns));
+        self.enter(false);
         let uid = self.next_uid();
         // len 0: a zero-length packet (all of them look alike: judged by count); otherwise >= 12 bytes carry a uid
         let data = payload::make(uid, if len == 0 { 0 } else { len.max(12) });
@@ -923,7 +1012,7 @@ impl World {
     }
 
     pub fn server_send(&mut self, addr: SocketAddr, len: usize, chan: usize, mode: u8) -> Option<u64> {
-        uv::time::set_virtual_ns(Some(self.now_ns));
+        self.enter(true);
         let uid = self.next_uid();
         // len 0: a zero-length packet (all of them look alike: judged by count); otherwise >= 12 bytes carry a uid
         let data = payload::make(uid, if len == 0 { 0 } else { len.max(12) });
@@ -942,7 +1031,7 @@ impl World {
     }
 
     pub fn client_disconnect(&mut self, i: usize, now: bool) {
-        uv::time::set_virtual_ns(Some(self.now_ns));
+        self.enter(false);
         self.log(format!("APP client {} disconnect(now={})", i, now));
         if let Some(cl) = self.clients[i].client.as_mut() {
             let _ = ep_call!(self, 11, "Client::disconnect", if now { cl.disconnect_now() } else { cl.disconnect() });
@@ -952,7 +1041,7 @@ impl World {
     }
 
     pub fn server_disconnect(&mut self, addr: SocketAddr, now: bool) {
-        uv::time::set_virtual_ns(Some(self.now_ns));
+        self.enter(true);
         self.log(format!("APP server disconnect {} (now={})", addr, now));
         let rc = match self.server.server.as_ref().and_then(|s| s.client(&addr)) {
             Some(rc) => rc.clone(),
@@ -964,7 +1053,7 @@ impl World {
     }
 
     pub fn server_drop(&mut self, addr: SocketAddr) {
-        uv::time::set_virtual_ns(Some(self.now_ns));
+        self.enter(true);
         self.log(format!("APP server drop {}", addr));
         let existed = self.server.server.as_ref().map_or(false, |s| s.client(&addr).is_some());
         if let Some(srv) = self.server.server.as_mut() {
@@ -983,7 +1072,7 @@ impl World {
     }
 
     pub fn server_flush(&mut self) {
-        uv::time::set_virtual_ns(Some(self.now_ns));
+        self.enter(true);
         if let Some(srv) = self.server.server.as_mut() {
             let _ = ep_call!(self, 2, "Server::flush", srv.flush());
         }
@@ -992,7 +1081,7 @@ impl World {
     }
 
     pub fn client_flush(&mut self, i: usize) {
-        uv::time::set_virtual_ns(Some(self.now_ns));
+        self.enter(false);
         if let Some(cl) = self.clients[i].client.as_mut() {
             let _ = ep_call!(self, 2, "Client::flush", cl.flush());
         }
